@@ -16,6 +16,9 @@ from . import core
 from .core import HarnessError, VERIF
 
 FINDINGS = os.path.join(VERIF, 'known_findings.json')
+# evidence/ and replays/ go under VERIF_OUT when set (runs against scratch copies must not overwrite the
+# evidence of /repo itself); default /verif
+OUT = os.environ.get('VERIF_OUT') or VERIF
 MAX_REPORTED = 25
 
 
@@ -104,8 +107,8 @@ def write_evidence(mod, tier, seed, rec, wall, nviol, extra):
     cov['library_commit'] = core.repo_commit()
     ev = {'property_id': mod.ID, 'tier': tier, 'seed': seed, 'level': level, 'coverage': cov,
           'assumptions': list(getattr(mod, 'ASSUMPTIONS', [])), 'wall_s': round(wall, 3), 'violations': nviol}
-    os.makedirs(os.path.join(VERIF, 'evidence'), exist_ok=True)
-    path = os.path.join(VERIF, 'evidence', '%s.json' % mod.ID)
+    os.makedirs(os.path.join(OUT, 'evidence'), exist_ok=True)
+    path = os.path.join(OUT, 'evidence', '%s.json' % mod.ID)
     tmp = path + '.tmp%d' % os.getpid()
     with open(tmp, 'w') as f:
         json.dump(ev, f, indent=1, sort_keys=True)
@@ -157,11 +160,11 @@ def do_check(pid, tier, seed):
     status = 0
     if new:
         status = 1
-        os.makedirs(os.path.join(VERIF, 'replays'), exist_ok=True)
+        os.makedirs(os.path.join(OUT, 'replays'), exist_ok=True)
         for sig in new[:MAX_REPORTED]:
             e = rec.viol[sig]
             name = '%s-%016x.json' % (pid, core.h64(sig))
-            path = os.path.join(VERIF, 'replays', name)
+            path = os.path.join(OUT, 'replays', name)
             with open(path, 'w') as f:
                 json.dump({'property': pid, 'sig': sig, 'what': e['what'], 'count': e['count'],
                            'case': jsonable(e['case']), 'library_commit': core.repo_commit(),
